@@ -657,7 +657,7 @@ Section Final.
     view5 fs' ty (fun p => norm_text (tx p)).
   Proof.
     destruct (decode_doc5_fields jr lo reg sw acts actors k pu ty tx Hr Hsel Hty Hne Hok Hpu) as (rs & fs0 & Ers & Happ & Hview).
-    set (rec := load_item jr lo reg sw acts actors links 63).
+    set (rec := load_item jr lo reg sw acts actors links 300).
     exists (canon_fields lo k (fs0 rec)). split; [|exact (Hview rec)].
     assert (Hp : fj_parse (doc_encode5 ty tx) = Ok (fj_of (doc_tree5 ty tx))).
     { rewrite (doc_encode5_tree ty tx Hty Hok). apply parse_doc, doc5_depth, Hok. }
